@@ -299,6 +299,7 @@ impl AnySection for E3Section {
         let fxc = fx.clone();
         let repc = rep.clone();
         let name = self.sc.name.clone();
+        let mut explored_violation = false;
         let mut check = |ex: &Execution<u64>| -> bool {
             executions += 1;
             decisions += ex.decisions.len() as u64;
@@ -318,6 +319,7 @@ impl AnySection for E3Section {
             classes.insert(o.class);
             repc.mark_outcome(o.class);
             if let Some(f) = o.fail {
+                explored_violation = true;
                 repc.add_violation(&name, json!({"scenario": sc, "choices": ex.choices(), "schedule": ex.schedule()}), f);
             }
             true
@@ -349,7 +351,9 @@ impl AnySection for E3Section {
                         // scenario (something is shared outside the RwLock operations it interleaves): the check cannot decide
                         // and says so (exit 2).
                         free_bad += 1;
-                        if free_bad == 1 {
+                        // (when the exploration already reported a violation for this scenario the uncontrolled runs
+                        // misbehave for that reason: nothing to add)
+                        if free_bad == 1 && !explored_violation {
                             rep.machinery_error(format!(
                                 "{}:{:?}: an UNCONTROLLED run of the scenario bodies gave thread {t} a result no explored schedule gives ({:?}): the scheduler does not own all nondeterminism of this scenario",
                                 self.sc.name,
